@@ -191,8 +191,12 @@ func (s *vf15Session) queueCorrupt() {
 		bit = rapid.IntRange(0, refss.RegionBits(pkt, region)-1).Draw(s.rt, "bit")
 		return refss.CorruptPacket(pkt, region, bit)
 	})
+	s.l.setCorrupt(region, bit, n+pad)
 	s.log = append(s.log, fmt.Sprintf("S:CORRUPT(%d+%d,%v bit %d)", n, pad, region, bit))
 	s.cls["flip-"+region.String()] = true
+	if !s.l.corruptDecidable {
+		s.cls["flip-header-length-grows(needs more traffic)"] = true
+	}
 	if region == refss.RegionBody && bit/8 >= n {
 		s.cls["flip-body-in-padding"] = true
 	}
@@ -202,6 +206,45 @@ func (s *vf15Session) queueCorrupt() {
 		s.l.packet(refss.FlagPayload, s.srvData(m), p, nil)
 		tail += m + p + refss.PktOverhead
 		s.log = append(s.log, fmt.Sprintf("S:data(%d+%d)", m, p))
+	}
+}
+
+// corruptBehindIntact: an intact non-empty payload packet and, directly behind
+// it, a packet with one inverted bit in its MAC or body (possibly the padding
+// packet of the same burst) arrive in ONE segment that fits one network read;
+// nothing follows: the server stays silent, or closes.  The intact payload is
+// delivered and the modification must be reported all the same.
+func (s *vf15Session) corruptBehindIntact(thenEOF bool) {
+	l := s.l
+	s.fail(l.release(l.n.Pending(wire.B)))
+	s.fail(l.checkDelivery("before the modified packet"))
+	m := rapid.SampledFrom([]int{1, 5, 100, 500}).Draw(s.rt, "intactLen")
+	l.packet(refss.FlagPayload, s.srvData(m), rapid.SampledFrom([]int{0, 1, 30}).Draw(s.rt, "intactPad"), nil)
+	n := rapid.SampledFrom([]int{0, 0, 1, 50, 400}).Draw(s.rt, "damagedLen")
+	pad := rapid.SampledFrom([]int{0, 1, 40, 300}).Draw(s.rt, "damagedPad")
+	region := refss.RegionMAC
+	if n+pad > 0 && rapid.Bool().Draw(s.rt, "inBody") {
+		region = refss.RegionBody
+	}
+	var bit int
+	l.packet(refss.FlagPayload, s.srvData(n), pad, func(pkt []byte) []byte {
+		bit = rapid.IntRange(0, refss.RegionBits(pkt, region)-1).Draw(s.rt, "bit")
+		return refss.CorruptPacket(pkt, region, bit)
+	})
+	l.setCorrupt(region, bit, n+pad)
+	s.log = append(s.log, fmt.Sprintf("S:data(%d) S:CORRUPT(%d+%d,%v bit %d) in one segment, then %s", m, n, pad, region, bit, map[bool]string{false: "silence", true: "EOF"}[thenEOF]))
+	s.cls["flip-"+region.String()] = true
+	s.cls["flip-behind-intact-payload-nothing-after"] = true
+	if n == 0 {
+		s.cls["flip-in-padding-packet-behind-payload"] = true
+	}
+	s.fail(l.release(l.n.Pending(wire.B)))
+	s.fail(l.checkDelivery("intact payload packet and modified packet in one segment, then silence"))
+	if thenEOF {
+		s.cls["flip-behind-intact-then-eof"] = true
+		l.n.EOF(wire.B)
+		s.fail(l.quiesce())
+		s.fail(l.checkDelivery("intact payload packet and modified packet in one segment, then EOF"))
 	}
 }
 
@@ -345,8 +388,10 @@ func TestVerifC15Sessions(t *testing.T) {
 		t.Fatalf("reference server anchors: %v", err)
 	}
 	c := vf15Evidence()
-	c.Rule("sessions: one connection per case through ClientFactory/ParseArgs/Dial against refss: server padding length (edges and 0..1308), Y or p-Y, the first flight (response, optionally with coalesced packets; or the first packets after a ticket handshake) cut in 1..3 segments at field boundaries +-1 / inside the last 32 bytes / anywhere, then up to 12 operations {server queues 1..3 packets (data, padding-only, PRNG_SEED, NEW_TICKET), release a segment (1..22 bytes, packet boundary +-1, anything, all), client Write (0..5000 bytes; 1427/1428/2854 edges) fed to the server in a drawn chunking, read buffer size 1/7/1427/65536}; at every quiescent point after Dial has returned, on an unmodified stream, everything that has arrived in complete packets must have been delivered (payload), be in the ticket store (NEW_TICKET) or have reset the length distribution (PRNG_SEED) without any further traffic; modes: ok, one flipped bit in a packet (MAC, header, body) followed by > 1448 valid bytes, wrong shared secret, one flipped bit in the response; non-trivial = a cut inside the last 32 bytes of the response or a mode other than ok; fingerprint = seed, mode, padding, cuts, operation log")
+	c.Rule("sessions: one connection per case through ClientFactory/ParseArgs/Dial against refss: server padding length (edges and 0..1308), Y or p-Y, the first flight (response, optionally with coalesced packets; or the first packets after a ticket handshake) cut in 1..3 segments at field boundaries +-1 / inside the last 32 bytes / anywhere, then up to 12 operations {server queues 1..3 packets (data, padding-only, PRNG_SEED, NEW_TICKET), release a segment (1..22 bytes, packet boundary +-1, anything, all), client Write (0..5000 bytes; 1427/1428/2854 edges) fed to the server in a drawn chunking, read buffer size 1/7/1427/65536}; at every quiescent point after Dial has returned, on an unmodified stream, everything that has arrived in complete packets must have been delivered (payload), be in the ticket store (NEW_TICKET) or have reset the length distribution (PRNG_SEED) without any further traffic; modes: ok, one flipped bit in a packet (MAC, header, body) followed by > 1448 valid bytes, or — half of the cases — an intact non-empty payload packet and directly behind it a packet with a flipped MAC / body bit (also the padding-only packet of the burst) in ONE segment that fits one network read, then silence or EOF; a modification that is decidable once the packet has arrived completely (MAC, body, any header bit except a 0->1 flip of the total length that stays <= 1427) must have produced a Read error other than io.EOF at the next quiescent point without further traffic (the reader calls Read three more times after the first error; everything delivered, before or after it, must stay a prefix of what the server sent), wrong shared secret, one flipped bit in the response; non-trivial = a cut inside the last 32 bytes of the response or a mode other than ok; fingerprint = seed, mode, padding, cuts, operation log")
 	c.Floor("mode-flip-packet/sessions", 0.15)
+	c.Floor("flip-behind-intact-payload-nothing-after/mode-flip-packet", 0.25)
+	c.Floor("flip-behind-intact-then-eof/mode-flip-packet", 0.08)
 	c.Floor("flip-body/mode-flip-packet", 0.15)
 	c.Floor("flip-header/mode-flip-packet", 0.15)
 	c.Floor("flip-mac/mode-flip-packet", 0.10)
@@ -417,6 +462,11 @@ func TestVerifC15Sessions(t *testing.T) {
 		l := vf15Dial(cf, srv, addr, clientSecret)
 		defer l.close()
 		s.l = l
+		if mode == vf15ModeFlipPacket {
+			// the application calls Read three more times after the first error:
+			// whatever those calls deliver is judged by the same prefix oracle
+			l.ep.KeepReading(3)
+		}
 		s.fail(l.readHello())
 
 		if mode == vf15ModeWrongSecret {
@@ -526,12 +576,17 @@ func TestVerifC15Sessions(t *testing.T) {
 		}
 
 		nops := rapid.IntRange(0, 12).Draw(rt, "nops")
-		corruptAt := -1
+		corruptAt, shape := -1, 0
 		if mode == vf15ModeFlipPacket {
 			corruptAt = rapid.IntRange(0, nops).Draw(rt, "corruptAt")
+			shape = rapid.IntRange(0, 3).Draw(rt, "corruptShape")
 		}
 		for i := 0; i <= nops; i++ {
 			if i == corruptAt {
+				if shape >= 2 {
+					s.corruptBehindIntact(shape == 3)
+					break // nothing follows the modified packet
+				}
 				s.queueCorrupt()
 			}
 			if i == nops {
@@ -561,6 +616,12 @@ func TestVerifC15Sessions(t *testing.T) {
 			for l.n.Pending(wire.B) > 0 {
 				s.releaseSome()
 				s.fail(l.checkDelivery("draining after the modified packet"))
+			}
+			if reads, n := l.ep.AfterErr(); reads > 0 {
+				cls["reads-after-error"] = true
+				if n > 0 {
+					cls["bytes-delivered-after-error"] = true
+				}
 			}
 			if l.ep.ReadErr() == nil {
 				rt.Fatalf("VIOL[c15-corruption-undetected]: a packet with one inverted bit and %d further bytes were delivered, client Read reports no error (delivered %d of %d bytes); history: %s",
